@@ -64,8 +64,9 @@ CHECKS["C01"] = {
     "text": "For all inputs: the structure that makes row exchanges effective — every ordered comparison of element values reachable from the solvers compares "
             "magnitudes; the pivot search is an arg-max over rows k..rows of the eliminated column; every matrix row exchange is mirrored on the right-hand side / "
             "permutation with the same pair; elimination applies one multiplier (pivot as divisor) to the matrix row and the rhs entry; P*b precedes the sweeps; "
-            "forward sweep 0..i ascending, back substitution k+1..rows descending then division by the diagonal; index kinds consistent.",
-    "design_ref": "DESIGN.md §3 C01",
+            "forward sweep 0..i ascending, back substitution k+1..rows descending then division by the diagonal; index kinds consistent; every panic of the solvers and "
+            "their helpers is guarded by shape comparisons (or an exactly-zero matrix element) only, never by a computed quantity such as a determinant.",
+    "design_ref": "DESIGN.md §3 C01, §18",
     "note": "Decides pivoting/elimination/substitution structure only; backward error, exactness over rationals and agreement of the two solvers are not decidable statically.",
     "technique": TECH + "magnitude dataflow on PartialOrd comparisons, arg-max recognition, exchange/row-operation pairing, sweep-range analysis",
 }
@@ -132,11 +133,16 @@ CHECKS["C09"] = {
             "QMR's s = A d discovered as an inductive image pair), and each in-loop success exit tests the residual of the x it returns. (c) every failure exit inside the loop is an exact zero test "
             "(no absolute threshold). (d) breakdown-freedom: every inner product evaluated in the loop is of a vector with itself (or, in CG, of p with A p — positive on the SPD class) and no norm of a "
             "left (A^T-generated) Lanczos vector is used: an inner product of two different vectors can vanish while the residual has not, and the recurrence then divides by it or gives up. "
-            "CG has no such scalar; BiCG, BiCGSTAB and QMR have eight between them, each demonstrated on a strictly diagonally dominant system of order <= 4 (open findings, findings/c09-breakdown).",
-    "design_ref": "DESIGN.md §3 C09, §7, §12",
+            "CG has no such scalar; BiCG, BiCGSTAB and QMR have eight between them, each demonstrated on a strictly diagonally dominant system of order <= 4 (open findings, findings/c09-breakdown). "
+            "(e) the method itself: the map `state at the top of an iteration -> next` (start-up values, first and later iteration) that drives x equals, as a rational function of the inner products "
+            "and norms it evaluates, the map of our transcription of CG / BiCG / Bi-CGSTAB / QMR from Barrett et al., Templates (reference/krylov_ref.rs, frozen typed HIR), compared by colour "
+            "refinement over the loop-carried variables with rational functions hashed at a point of GF(2^127-1) (polynomial identity testing on names; nothing is executed); every exact-zero "
+            "failure exit tests a scalar, at a state of x, at which the published method stops too.",
+    "design_ref": "DESIGN.md §3 C09, §7, §12, §14.2, §17",
     "note": "NOT decided (not applicable to static analysis): the rate of convergence (O(n) iterations) and agreement with the direct solution to tol*cond(A). The eight open findings are inherent to "
             "Lanczos-type methods without look-ahead/restart and are not a small patch; they are listed by exact key in known_findings.txt, so a ninth indefinite scalar is still reported.",
-    "technique": TECH + "dataflow over a linear-combination abstract domain (values of the operands of every inner product / norm at evaluation time), def-guard-use pattern on the norm divisor, sibling start-up agreement",
+    "technique": TECH + "dataflow over a linear-combination abstract domain (values of the operands of every inner product / norm at evaluation time), def-guard-use pattern on the norm divisor, sibling start-up agreement, "
+                        "sibling agreement with a reference transcription (iteration-map fingerprints by colour refinement + polynomial identity testing)",
 }
 
 CHECKS["C18"] = {
